@@ -162,6 +162,34 @@ def capture_not_stratum(ctx, d, n=1):
     d.flags = saved
 
 
+def not_memory_probes(ctx, d):
+    """An operand-level $not in front of further operand items, on instructions whose operands are memory references: the $not
+    stands for the WHOLE bracketed operand (it cannot end at a `+`, `*` or `]` inside it and leave the rest to the next item).
+    Identical at every seed; judged by R-dsl."""
+    rng = ctx.rng
+    rows = [("lea", ["0x10(%rax,%rbx,8)", "%rcx"]), ("mov", ["-0x8(%rbp)", "%rdx"]), ("lea", ["(%rdx)", "%rbx"]), ("mov", ["%rdx", "0x8(%rsp)"]),
+            ("add", ["$0x8", "0x18(%rdi,%rsi,4)"]), ("lea", ["0x10(%rax,%rbx,8)", "%rbx"]), ("cmp", ["(%rcx,%rdx,2)", "%rdx"]), ("ret", [])]
+    insts, addr = [], 0x401000
+    for m, ops in rows:
+        insts.append(L.SInst(addr, m, list(ops), None, None, 4))
+        addr += 4
+    prep = dsl.Prepared(d.ws, insts, rng)
+    ctx.ran()
+    if not prep.verify(d.ws):
+        ctx.inconc("parser disagreement on synthetic listing")
+        return
+    saved = getattr(d, "flags", None)
+    d.flags = "none"
+    d.prep, d.style = prep, "not-before-operands-of-memory-references"
+    for pat in ([{"lea": [{"$not": ["rdx"]}, "rbx"]}], [{"mov": [{"$not": ["rax"]}, "0x8"]}], [{"lea": [{"$not": ["rdx"]}, {"$not": ["rcx"]}]}],
+                [{"lea": [{"$not": ["rdx"]}, "rcx"]}], [{"mov": [{"$not": ["rax"]}, "rdx"]}], [{"add": [{"$not": ["0x9"]}, "rsi"]}], [{"add": [{"$not": ["0x9"]}, {"$not": ["0x9"]}, "rsi"]}],
+                [{"cmp": [{"$not": ["rax"]}, "rdx"]}], [{"cmp": [{"$not": ["rax"]}, "2"]}], [{"lea": [{"$not": ["zzz"]}, {"$not": ["zzz"]}, {"$not": ["zzz"]}]}],
+                [{"mov": ["rdx", {"$not": ["rax"]}]}], [{"mov": ["rdx", {"$not": ["rax"]}, "rsp"]}], [{"lea": [{"$not": [{"$deref": {"main_reg": "rdx"}}]}, "rbx"]}]):
+        d.run_pattern(pat, "base", True)
+        ctx.event("not_before_memory_operand_probes")
+    d.flags = saved
+
+
 WIDE = [("vpermil2ps", ["$0x1", "%xmm3", "%xmm2", "%xmm1", "%xmm0"]), ("vpermil2pd", ["$0x0", "%ymm4", "%ymm3", "%ymm2", "%ymm1"]),
         ("vfmaddps", ["%xmm1", "%xmm2", "%xmm3", "%xmm4"]), ("vaddps", ["%zmm2", "%zmm1", "%zmm0{%k1}{z}"]), ("vaddps", ["{rn-sae}", "%zmm1", "%zmm2", "%zmm3"]),
         ("vmovaps", ["%zmm2", "%zmm1{%k1}"]), ("vcmpps", ["$0x1", "%zmm1", "%zmm2", "%k2{%k3}"]), ("vblendvps", ["%ymm1", "%ymm2", "%ymm3", "%ymm4"]),
